@@ -1,14 +1,15 @@
 SPECIFICATION XSpec
 CONSTANTS
- L = 2
- History <- H2x3r
- Grid <- Grid2
+ L = 3
+ History <- HRingChain1
+ Grid <- Grid3
  Bundle <- Bundle6
  MaxIter = 5
- MaxReject = 2
- Force = FALSE
+ MaxReject = 1
+ Force = TRUE
  Dev <- NoDev
 INVARIANT StepOne
 INVARIANT NoOverlap
+INVARIANT ForceWithinLimit
 INVARIANT ExportInv
 CHECK_DEADLOCK FALSE
